@@ -479,7 +479,10 @@ pub(crate) fn on_retract_response(
     } = core.split_mut();
     let mut to_workers: Map<WorkerId, Vec<(TaskId, ResourceVariantId)>> = Map::new();
     for task_id in task_ids {
-        let task = task_map.get_task_mut(*task_id);
+        let Some(task) = task_map.find_task_mut(*task_id) else {
+            log::debug!("Retracted task {task_id} is not here (canceled in the meantime)");
+            continue;
+        };
         if !matches!(task.state, TaskRuntimeState::Retracting { worker_id: w_id } if worker_id == w_id)
         {
             log::debug!("Retracted task {task_id} is in invalid state");
